@@ -142,7 +142,7 @@ def rules_validate(run, r):
     V = vi.node
     lp = [n for n in q.walk(V, False) if isinstance(n, ast.For)]
     run.anchor(len(lp) == 1 and '_states' in q.unparse(lp[0].iter), r, 'loop over all states in _validate_compoundstate_initial')
-    run.check(not any(isinstance(x, (ast.Break, ast.Continue)) for x in ast.walk(lp[0])) and not any(isinstance(x, ast.Return) for x in ast.walk(lp[0])), r, vi.short,
+    run.check(not any(isinstance(x, (ast.Break, ast.Return)) for x in ast.walk(lp[0])), r, vi.short,
               'every state is examined', 'the loop can stop early', lp[0])
     tv = [e.id for e in lp[0].target.elts] if isinstance(lp[0].target, ast.Tuple) else [None, lp[0].target.id]
     nm, sv = tv
